@@ -119,17 +119,18 @@ Print Assumptions C13_expect_pinned_refuted.
    function, all injected/expected lists and all calls with distinct keywords,
    the MODEL's observation satisfies it - so on a run where [agree] holds (model =
    implementation on that case) the implementation's behaviour is the proved one. *)
-Theorem C13_model_satisfies_spec : forall f steps fwd calls,
+Theorem C13_model_satisfies_spec : forall f steps fwd partial calls,
   wf_func f -> steps <> [] -> steps_nonzero steps ->
   Forall (fun c => NoDup (keys (c_kw c))) calls ->
   (fwd = true -> forallb plain_step steps = true) ->
-  holds (model_case f steps fwd calls) = true.
+  (fwd = false -> partial_ok steps partial = true) ->
+  holds (model_case f steps fwd partial calls) = true.
 Proof. exact model_holds. Qed.
 Print Assumptions C13_model_satisfies_spec.
 
-Theorem C13_model_agrees_with_itself : forall f steps fwd calls,
+Theorem C13_model_agrees_with_itself : forall f steps fwd partial calls,
   wf_func f -> steps_nonzero steps ->
-  agree (model_case f steps fwd calls) = true.
+  agree (model_case f steps fwd partial calls) = true.
 Proof. exact model_agrees. Qed.
 Print Assumptions C13_model_agrees_with_itself.
 
@@ -141,6 +142,7 @@ Theorem C13_agree_implies_holds : forall k,
   wf_func (k_f k) -> k_steps k <> [] -> steps_nonzero (k_steps k) ->
   Forall (fun c => NoDup (keys (c_kw c))) (k_calls k) ->
   (k_forward k = true -> forallb plain_step (k_steps k) = true) ->
+  (k_forward k = false -> partial_ok (k_steps k) (k_partial k) = true) ->
   agree k = true -> holds k = true.
 Proof. exact agree_implies_holds. Qed.
 Print Assumptions C13_agree_implies_holds.
@@ -308,6 +310,8 @@ Example C13_ex_stack :
   steps_nonzero ex_steps.
 Proof. exact ex_stack. Qed.
 Example C13_ex_stack_holds :
-  holds (model_case ex_f ex_steps false [ex_call; ex_bad_call]) = true /\
-  holds (model_case ex_f [mkStep [] [] default_options 101; mkStep [] [] default_options 102] true [ex_call; ex_bad_call]) = true.
+  holds (model_case ex_f ex_steps false 0 [ex_call; ex_bad_call]) = true /\
+  holds (model_case ex_f [mkStep [] [] default_options 101; mkStep [] [] default_options 102] true 0 [ex_call; ex_bad_call]) = true /\
+  holds (model_case ex_f [mkStep [2] [] default_options 101; mkStep [] [] default_options 102; mkStep [] [] default_options 103] false 2 [ex_call; ex_bad_call]) = true /\
+  partial_ok [mkStep [2] [] default_options 101; mkStep [] [] default_options 102; mkStep [] [] default_options 103] 2 = true.
 Proof. exact ex_stack_holds. Qed.
